@@ -630,7 +630,10 @@ type ArrayLiteral struct {
 
 func (al ArrayLiteral) PrettyPrint(out *PrintState) *PrintState {
 	out.Print("[")
+	oldExpressionPrecedence := out.ExpressionPrecedence
+	out.ExpressionPrecedence = LOWEST // the brackets delimit the elements ([a:] + b isn't [(a:)] + b, which doesn't parse).
 	out.ComaList(al.Elements)
+	out.ExpressionPrecedence = oldExpressionPrecedence
 	out.Print("]")
 	return out
 }
